@@ -234,6 +234,9 @@ def read_all_unit(key, bank, use_latch, aname, amk, device):
                 kind="custom", runner=runner, loops=loops, max_paths=200000)
 
 
+# checks whose proof units establish the callee contracts applied here (re-verified by this check, see main.dependency_units)
+DEPENDENCIES = ['C04', 'C05', 'C11']
+
 META = {
     "level": "proof",
     "bounds": {"values": "every declared value of banks 0, 0-legacy, 1, 202-207",
